@@ -14,5 +14,5 @@ build/bin/gostr2lean /repo lean/GitSizer/Gen || cp lean/gen_baseline/Strs.lean l
 # warm the Go build cache for the driver and the binary
 python3 harness/overlay.py build/overlay.json
 V="$PWD"
-(cd /repo && go build -tags verif -overlay "$V/build/overlay.json" -o "$V/build/bin/drv" ./internal/verifdrv && go build -o "$V/build/bin/git-sizer" .) || true
+(cd /repo && go build -tags verif -overlay "$V/build/overlay.json" -o "$V/build/bin/drv" ./internal/verifdrv && go build -o "$V/build/bin/git-sizer" . && CGO_ENABLED=1 go build -race -o "$V/build/bin/git-sizer-race" .) || true
 echo setup done
